@@ -201,7 +201,7 @@ def grid_snapshot(dat):
             for k in g.connectionlist]
     rocks = []
     for rt in g.rocktypelist:
-        d = {'name': rt.name, 'nad': rt.nad, 'density': rt.density, 'porosity': rt.porosity, 'permeability': [float(x) for x in rt.permeability],
+        d = {'name': rt.name, 'nad': rt.nad, 'density': rt.density, 'porosity': rt.porosity, 'permeability': [None if x is None else float(x) for x in rt.permeability],
              'specific_heat': rt.specific_heat}
         for k in ('compressibility', 'expansivity', 'dry_conductivity', 'tortuosity', 'klinkenberg', 'xkd3', 'xkd4'):
             d[k] = getattr(rt, k, None)
